@@ -133,9 +133,17 @@ CLAIMED["C19"] = dict(
     note=TRUST + "Two one-line clauses on getRules, written from the property statement; they decide the negative direction ('a rule must not leak') locally. Not decided: that setRules files every selector under the right node (its recursive closure calls itself through a captured variable and is abstracted), that a bound service-config rule behaves like an annotation (same addRule call in appendHandler, by inspection), the health service end to end.",
     ref="DESIGN.md sections 5 C19 and 10.3")
 
+CLAIMED["C10"] = dict(
+    text=("Partial proof, per path, of what larking's own proxy closures do (not of the equivalence): the streaming proxy opens the backend stream for the proxied method's own name and stream description, "
+          "with the caller's incoming metadata as outgoing metadata whenever there is any, passes the first request message on as received, returns a backend failure as it is (the error value that carries code, message and details), "
+          "passes the backend's trailer on after a clean end, and its client pump calls CloseSend on the backend stream when the client's stream ends (io.EOF); isStreamError treats exactly nil, io.EOF and context.Canceled as non-failures; "
+          "the unary proxy invokes the backend for the method's own name with the caller's metadata, the request and reply objects handed in and out, and passes an error on. "
+          "One known finding: a client stream that ends before its first message is answered with EOF instead of reaching the backend."),
+    note=TRUST + "Thin clauses on the closures of createConnHandler, written from the property statement after a probe showed a hung client-streaming call (fixed). Not decided: the observational equivalence itself, the interleavings of the two pumps and which side fails first (goroutines are abstracted by the generator: each closure is verified as a sequential function, its captured variables as heap cells), grpc-go's streams, response header metadata, message contents (dynamicpb round trip).",
+    ref="DESIGN.md sections 5 C10 and 10.3")
+
 NA = {
     "C03": "round trip through encoding/json, protojson, base64, gzip and protobuf reflection: larking's share is a kind-dispatch table whose every arm delegates to a dependency; a contract would axiomatise the libraries, not decide the code (DESIGN 5 C03)",
-    "C10": "observational equivalence of two systems over whole call histories, decided by grpc-go streams and two pump goroutines; the VC generator drops goroutines and no per-function contract expresses it (DESIGN 5 C10)",
     "C13": "pool reuse, goroutine lifetimes and data races are statements over schedules; no permission/ownership logic for sync.Pool hand-offs, go/sync are dropped by the generator (DESIGN 5 C13)",
     "C20": "behaviour of net/http.ServeMux longest-pattern matching, http.StripPrefix and h2c; larking contributes a six-line loop without arithmetic (DESIGN 5 C20)",
 }
